@@ -1406,7 +1406,7 @@ func main() {
 	}, func(c *mon.Ctx) {
 		c.One("selfcheck", selfcheck)
 		lengths := []int{32, 38, 1, 2, 8, 12, 32, 38}
-		c.Cases("hist", c.N(640, 8000), func(k *mon.Case) {
+		c.Cases("hist", c.N(1600, 8000), func(k *mon.Case) {
 			L := lengths[k.Index%len(lengths)]
 			shape := shapes[(k.Index/len(lengths))%len(shapes)]
 			poolN := 2 + k.R.Intn(120)
@@ -1418,12 +1418,12 @@ func main() {
 			}
 			history(c, k, L, shape, poolN, c.N(6, 10), minInt(poolN, 60), c.N(4, 6), c.N(24, 40))
 		})
-		c.Cases("big", c.N(16, 48), func(k *mon.Case) {
+		c.Cases("big", c.N(32, 48), func(k *mon.Case) {
 			L := []int{32, 38, 2, 8}[k.Index%4]
 			shape := shapes[k.R.Intn(len(shapes))]
 			poolN := c.N(1500, 4000) + k.R.Intn(c.N(2500, 6500))
 			history(c, k, L, shape, poolN, 3, poolN, 4, 24)
 		})
-		c.Cases("varlen", c.N(320, 4000), varlen)
+		c.Cases("varlen", c.N(640, 4000), varlen)
 	})
 }
